@@ -106,6 +106,17 @@ def run(ck):
         ok = ok and all(T.path_has(lr, c.args[2], ".interest") and T.agg_variant(lr, c.args[3]) == {("sys::Mode", "OneShot")} and T.path_has(lr, c.args[4], ".token") for c in pr)
         ck.verdict(ok, "2", "T6-provenance", lr, "rearm(disp.fd, disp.interest, OneShot, disp.token)", "the poller is re-armed with the dispatcher's own fd, interest and token in one-shot mode", "the re-arming does not use the dispatcher's interest/token in OneShot mode", site=lr.where())
 
+    li = ck.opt_body("<LoopInner as IoLoopInner>::register")
+    if li is None:
+        ck.anchor_missing("2", "T6-provenance", "<LoopInner as IoLoopInner>::register")
+    else:
+        pr = [cs for cs in li.calls() if cs.f and cs.f["path"] == "sys::Poll::register" and not li.is_cleanup(cs.bb)]
+        ok = bool(pr)
+        for c in pr:
+            k = c.args[2].get("k", {})
+            ok = ok and k.get("const_path", k.get("s", "")).endswith("Interest::EMPTY") and T.agg_variant(li, c.args[3]) == {("sys::Mode", "OneShot")} and T.path_has(li, c.args[4], ".token")
+        ck.verdict(ok, "2", "T6-provenance", li, "initial-registration:EMPTY+OneShot", "an adapter nobody awaits is registered with no interest, one-shot: it produces no events (not even a peer hang-up on every poll)", "the initial registration of an Async adapter is not (Interest::EMPTY, Mode::OneShot): an idle adapter whose peer hung up is reported on every poll and dispatch() spins", site=li.where())
+
     # ---- clause 3: event -> readiness recorded, waker woken --------------------------------------------------
     pe = ck.body("3", "<RefCell<IoDispatcher> as EventDispatcher>::process_events")
     lr_st = [(i, st) for i, j, st in T.stores_to_field(pe, "last_readiness")]
